@@ -64,7 +64,8 @@ def run(prop, path):
     shutil.copy(os.path.join(REPO, "Cargo.lock"), os.path.join(root, "Cargo.lock"))
     open(os.path.join(root, ".cargo", "config.toml"), "w").write("[net]\noffline = true\n")
     open(os.path.join(root, "src", "lib.rs"), "w").write("#![allow(warnings)]\nuse ::enum_tools::EnumTools;\n" + r["rust"] + "\n")
-    rc, msgs, err = run_rt.cargo_json(root, ["--lib"])
+    # (a verdict recorded with an optimised derive is reproduced the same way: --release builds the proc-macro without overflow checks)
+    rc, msgs, err = run_rt.cargo_json(root, ["--lib"] + (["--release"] if r.get("profile") == "release" else []))
     accepted = rc == 0
     if eng == "verdict":
         still = (r["why"] == "rejected" and not accepted) or (r["why"] == "accepted" and accepted)
